@@ -5,6 +5,7 @@ From Echo Require Import Base.GoLite Gen.Src_bodylimit Gen.Src_bodylimit_fn Mw.B
 Import ListNotations.
 Import ListNotations.
 Open Scope Z_scope.
+From Echo Require Import PropLemmas.C14.
 
 (* declared length above the limit: rejected before the handler runs *)
 Theorem C14_precheck : forall L pooled declared rs,
@@ -14,8 +15,7 @@ Print Assumptions C14_precheck.
 
 (* for every chunking / read-size sequence: bytes handed over before the first 413 never exceed L *)
 Theorem C14_bound : forall L rs, 0 <= L -> nonneg rs -> before413 (reads L 0 rs) <= L.
-Proof. intros L rs HL Hn. pose proof (bound L rs 0 ltac:(reflexivity) Hn). 
-       rewrite Z.max_r in H by exact HL. exact H. Qed.
+Proof. exact C14_bound_l. Qed.
 Print Assumptions C14_bound.
 
 (* once over the limit every further read reports 413 *)
@@ -27,14 +27,13 @@ Print Assumptions C14_sticky.
 (* a clean end-of-body is only ever reported while the bytes delivered so far are within L *)
 Theorem C14_no_clean_eof : forall L rs, nonneg rs ->
   forall pre n post, reads L 0 rs = pre ++ (n, REOF) :: post -> delivered pre + n <= L.
-Proof. intros L rs Hn pre n post H.
-       pose proof (eof_means_small L rs 0 ltac:(reflexivity) Hn pre n post H). exact H0. Qed.
+Proof. exact C14_no_clean_eof_l. Qed.
 Print Assumptions C14_no_clean_eof.
 
 (* bodies of at most L bytes are passed through unchanged, errors included *)
 Theorem C14_small_unchanged : forall L rs, nonneg rs -> total rs <= L ->
   reads L 0 rs = map (fun r => (fst r, lift (snd r))) rs.
-Proof. intros L rs Hn Ht. apply small_unchanged; [reflexivity|exact Hn|exact Ht]. Qed.
+Proof. exact C14_small_unchanged_l. Qed.
 Print Assumptions C14_small_unchanged.
 
 (* the count never carries over: a history of requests through one (pooled) reader is the
